@@ -99,8 +99,8 @@ about it).
 
 INTRO4 = """### 9.4d Fourth round: by file group instead of by property (the files earlier rounds hardly touched)
 
-The first three rounds gave each agent one property; 58 of their 181 patches landed in `nn/functional.py`, 61 in `hedger.py`,
-`derivative/base.py` and `bisect.py`, and 29 source files were never touched. The fourth round turns the assignment round: ten fresh
+The first three rounds gave each agent one property; 58 of their 181 patches landed in `nn/functional.py`, 51 in `hedger.py`,
+`derivative/base.py` and `bisect.py`, and 29 of the 67 source files were never touched. The fourth round turns the assignment round: ten fresh
 sub-agents (same isolation) each received all twenty property statements and one *group of files* (feature base classes and the name
 registry; `instruments/base.py` and the concrete derivative classes; `MultiLayerPerceptron` / `Naked` / lazy helpers / `ensemble_mean`; the
 random engines, `cast_state`, the Kou generator; the `BlackScholes` factory, `_base.py` and the binary / lookback modules; `_utils/parse.py`,
@@ -176,28 +176,30 @@ def rows_for(prefix_re):
 
 
 def main():
-    r4 = rows_for(r"D\d\d-\d")
-    if r4:
-        t4 = "".join(f"| {sid} ({prop}) | {what} | {verdict} | {fired} | {rule} |\n" for sid, prop, what, verdict, fired, rule in r4)
-        p = V / "DESIGN.md"
-        s = p.read_text()
-        a = s.find("### 9.4d ")
-        b = s.find("### 9.5 ")
-        if a == -1:
-            a = b
-        p.write_text(s[:a] + INTRO4 + t4 + CHANGES4 + s[b:])
-        print(f"9.4d written: {len(r4)} rows")
     table = "".join(f"| {sid} | {what} | {verdict} | {fired} | {rule} |\n" for sid, what, verdict, fired, rule in rows)
     text = INTRO + table + CHANGES
     p = V / "DESIGN.md"
     s = p.read_text()
     a = s.find("### 9.4c ")
-    b = s.find("### 9.5 ")
+    b = min(x for x in (s.find("### 9.4d "), s.find("### 9.5 ")) if x != -1)
     if a == -1:
         a = b
     s = s[:a] + text + s[b:]
     p.write_text(s)
     print(f"9.4c written: {len(rows)} rows; totals {n_all} seeds, {n_own} own, {n_other} other, {n_missed} missed")
+    for prefix, intro, changes, tag in ((r"D\d\d-\d", INTRO4, CHANGES4, "### 9.4d "), (r"E\d\d-\d", globals().get("INTRO5"), globals().get("CHANGES5"), "### 9.4e ")):
+        r_ = rows_for(prefix)
+        if not r_ or intro is None:
+            continue
+        t_ = "".join(f"| {sid} ({prop}) | {what} | {verdict} | {fired} | {rule} |\n" for sid, prop, what, verdict, fired, rule in r_)
+        s = p.read_text()
+        a = s.find(tag)
+        nxt = [x for x in (s.find("### 9.4e ") if tag == "### 9.4d " else -1, s.find("### 9.5 ")) if x != -1]
+        b = min(nxt)
+        if a == -1:
+            a = b
+        p.write_text(s[:a] + intro + t_ + changes + s[b:])
+        print(f"{tag.strip()} written: {len(r_)} rows")
 
 
 if __name__ == "__main__":
